@@ -305,6 +305,9 @@ def top_const(decl_type):
     return bool(re.search(r"\bconst(expr)?\b", ty))
 
 
+THREAD_LOCAL = set()
+
+
 def parse_var(rel, stmt, want_static):
     """If `stmt` (no trailing ';') declares a variable return (type_text, qualified name), else None."""
     s = MACROS.sub(" ", stmt)
@@ -477,6 +480,8 @@ def census():
                     statics.append((rel, cls.split("::")[-1], name, "def"))
                     continue
             statics.append((rel, cls.split("::")[-1] if cls else "", name, "decl" if kind == "class" else "file"))
+            if re.search(r"\bthread_local\b", ty):
+                THREAD_LOCAL.add((rel, name))     # one object per thread: recorded in the census entry (see out_statics)
         # (d) function-local statics
         for q, cst, body in funcs:
             body = body[body.index("{"):]
@@ -519,7 +524,10 @@ def census():
                 key = q
                 if users.get(key) != "w":
                     users[key] = f
-        out_statics.append((e["file"], cls, name, sorted(users.items())))
+        us = sorted(users.items())
+        if (e["file"], name) in THREAD_LOCAL:
+            us = [("storage class: thread_local", "t")] + us
+        out_statics.append((e["file"], cls, name, us))
 
     owners = []
     for fac, member, cls, hdr in OWNERS:
